@@ -28,7 +28,7 @@ from typing import Any
 from ..engine.absint import Obj
 from ..engine.normalize import positional
 from ..engine.order import Atom
-from ..engine.report import AnalysisError, Run
+from ..engine.report import AnalysisError, Run, first_line
 from ..engine.resolver import FuncNode, Program, walk_no_nested
 from ..engine.sympath import SymUnsupported, sym_block
 from ..engine.util import find_calls, method_call, u
@@ -585,14 +585,45 @@ CONTROLS = [
     ("non-adjustable range excludes the inclusion bound itself", BMM,
      "            in_upper_range = bounds.exclusion_upper <= power <= bounds.inclusion_upper",
      "            in_upper_range = bounds.exclusion_upper <= power < bounds.inclusion_upper", "C17.ACC"),
+    ("inverter exclusion guard dropped", BDA_MOD,
+     "                        not is_close_to_zero(remaining_power)\n                        and excl_bounds[inverter_id] <= remaining_power\n",
+     "                        not is_close_to_zero(remaining_power)\n", "C17.DIST"),
 ]
+
+
+def check_dist(run: Run, prog: Program) -> None:
+    """Last clause of the property: an admitted power 'can be distributed without entering any exclusion
+    zone'.  At group level that is C17.AGG (Σ_g min_power_g below the advertised exclusion bound); at
+    inverter level it is the split of a group's allocation over its inverters, which C02.INV decides
+    (every stored set-point is zero, the whole allocation of a one-inverter set, or min(incl[i], R)
+    on a path that established excl[i] <= R with R the power still to be placed).  C02's rule function
+    is run as it is into a scratch run and its verdicts are re-issued under C17.DIST."""
+    try:
+        from .c02 import check_inv
+    except ImportError as exc:  # fail closed: the clause would silently go undecided
+        raise AnalysisError(f"C17.DIST: the per-inverter split rule of C02 is not importable ({exc})") from None
+    scratch = Run(run.prop_id, run.tier, run.seed)
+    scratch.quiet = True
+    check_inv(scratch, prog)
+    for q in scratch.functions:
+        run.analysed(q)
+    bad = set()
+    for v in scratch.violations:
+        file, _, line = v.where.rpartition(":")
+        at = ast.Pass(lineno=int(line)) if line.isdigit() else None
+        bad.add(f"{v.rule}|{v.function} :: {first_line(v.construct, 100)}")
+        run.violation("C17.DIST", v.function, v.construct,
+                      "an admitted power is split over the inverters of a group into an exclusion zone: " + v.message,
+                      node=at, file=(file if at is not None else v.where) or None, path=v.path)
+    for d in sorted(scratch.distinct - bad):           # what the scratch run discharged
+        run.ok("C17.DIST", d.split("|", 1)[1])
 
 
 _CMP = {ast.Lt: "<", ast.Gt: ">", ast.LtE: "<=", ast.GtE: ">="}
 
 
 def structural_controls(prog: Program) -> list[tuple[str, str, str, str, str]]:  # noqa: C901
-    """The six controls located by structure in the tree under analysis (whole source -> patched
+    """The seven controls located by structure in the tree under analysis (whole source -> patched
     source), so that the same defects are injected into any surface form of the anchors; a site that
     cannot be located falls back to the textual control (reported as skipped when it does not apply)."""
     built: dict[str, tuple[str, str]] = {}
@@ -681,12 +712,22 @@ def structural_controls(prog: Program) -> list[tuple[str, str, str, str, str]]: 
                    ast.NotIn: "not in"}[type(op)]
             parts += [sym[0] if k == kk else sym, seg(bsrc, operands[k + 1])]
         add(CONTROLS[5][0], BMM, [(c, " ".join(parts))])
+    # 7. the per-inverter exclusion guard of the split is dropped
+    mip = prog.func(f"{BDA_MOD}:BatteryDistributionAlgorithm._distribute_multi_inverter_pairs")
+    if len(mip.params) == 4:
+        excl = mip.params[2]
+        guards = [c for c in ast.walk(mip.node) if isinstance(c, ast.Compare) and len(c.ops) == 1
+                  and isinstance(c.ops[0], (ast.LtE, ast.GtE, ast.Lt, ast.Gt))
+                  and any(isinstance(x, ast.Subscript) and is_name(x.value, excl) for x in [c.left, c.comparators[0]])]
+        if len(guards) == 1:
+            add(CONTROLS[6][0], BDA_MOD, [(guards[0], "True")])
     return [(nm, module, *built.get(nm, (old, new)), rule) for nm, module, old, new, rule in CONTROLS]
 
 
 def run_rules(run: Run, prog: Program) -> None:
     check_agg(run, prog)
     check_acc(run, prog)
+    check_dist(run, prog)
 
 
 def check(run: Run, prog: Program, tier: str) -> str:
@@ -694,16 +735,21 @@ def check(run: Run, prog: Program, tier: str) -> str:
              "Σmax>=maxΣ lemmas; same battery aggregation; every group once with all its members (left out only "
              "when it has no data); positional metric tables agree")
     run.rule("C17.ACC", "for every ordering: P != 0 inside the advertised bounds => _check_request admits it")
+    run.rule("C17.DIST", "an admitted power is split over a group's inverters without entering an inverter's "
+             "exclusion zone: every set-point is zero, a one-inverter set's whole allocation, or min(incl[i], R) "
+             "under excl[i] <= R (C02.INV's rule, re-issued)")
     run_rules(run, prog)
     run.floor("C17.AGG", 14)
     run.floor("C17.ACC", 30)
+    run.floor("C17.DIST", 4)
     from ..engine.controls import run_controls
 
     run_controls(run, structural_controls(prog), run_rules, tier, base_prog=prog)
     run.assume("inverter exclusion bounds satisfy lower <= 0 <= upper; lattice lemmas Σ_g max(a,b) >= "
                "max(Σa, Σb), Σ_g min(a,b) <= min(Σa, Σb), min_i x_i <= Σ_i x_i for x >= 0")
     run.undecided("equality of the *data* the two sides see at run time (the property says 'for the same "
-                  "complete component data'); distributability above Σ min power is C02's structure")
+                  "complete component data'); that the group totals of the proportional shares stay between minimum power "
+                  "and inclusion bound (numeric, C02's undecided part)")
     run.extra_cov["exhaustive"] = True
     return ("Table/sibling extraction of the two bounds aggregations into normalised aggregation terms "
             "compared by identity or by a fixed table of lattice lemmas, plus order-domain abstract "
